@@ -35,3 +35,22 @@ Proof.
   - apply IH. destruct acc as [[[s m] t]|]; [|exact I]. exact (step_preserves d (StoreLoad V) s m t H).
 Qed.
 End P.
+
+(* a history without any calibration reports nothing (Monte Carlo and storage cannot invent a definition) *)
+Section Q.
+Variables V S : Type.
+Variables (ser : V -> S) (deser : S -> V) (file : S -> S).
+Lemma last_calibrate_some ops x : last_calibrate V ops (Some x) <> None.
+Proof. revert x. induction ops as [|o ops IH]; intros x; simpl; [discriminate|]. destruct o as [s m t| |]; apply IH. Qed.
+Lemma no_calibration_no_definition ops d :
+  a_sections V S d = None -> a_matching V S d = None -> c_trans_att V S d = None -> last_calibrate V ops None = None ->
+  let d' := run V S ser deser file d ops in sections_of V S deser d' = None /\ matching_of V S deser d' = None /\ c_trans_att V S d' = None.
+Proof.
+  revert d. induction ops as [|o ops IH]; intros d H1 H2 H3 Hl; simpl.
+  - unfold sections_of, matching_of. rewrite H1, H2. auto.
+  - destruct o as [s m t| |]; simpl in Hl.
+    + exfalso. exact (last_calibrate_some ops (s, m, t) Hl).
+    + apply IH; simpl; [rewrite H1|rewrite H2|exact H3|exact Hl]; reflexivity.
+    + apply IH; simpl; [rewrite H1|rewrite H2|exact H3|exact Hl]; reflexivity.
+Qed.
+End Q.
